@@ -178,7 +178,11 @@ def print_tokens(r, min_level=0, redundant=None):
     elif t == 'alt':
         toks = print_tokens(r[1], 0, redundant) + [('|',)] + print_tokens(r[2], 1, redundant)
     elif t == 'cat':
-        toks = print_tokens(r[1], 1, redundant) + print_tokens(r[2], 2, redundant)
+        lt, rt = print_tokens(r[1], 1, redundant), print_tokens(r[2], 2, redundant)
+        if lt[-1] == ('$',) and rt[0] == ('$',):
+            # `$` directly followed by `$..` would read as the prefix of a variable / built-in: keep the end-of-input `$` apart
+            rt = [('(',)] + rt + [(')',)]
+        toks = lt + rt
     elif t in ('star', 'plus', 'opt'):
         op = {'star': '*', 'plus': '+', 'opt': '?'}[t]
         toks = print_tokens(r[1], 2, redundant) + [(op,)]
